@@ -67,7 +67,7 @@ argvc_internal_split_n(char *data, int maxlen, char **argv, int argcmax)
     char *eptr = data + maxlen;
 
 newarg_search:
-    while (data != eptr && strchr(ws, *data))
+    while (data != eptr && *data != '\0' && strchr(ws, *data))
         ++data;
     if (data == eptr || *data == '\0' || argc >= argcmax)
         return argc;
@@ -75,7 +75,7 @@ newarg_search:
     argv[argc++] = data;
     while (data != eptr && !strchr(ws, *data))
         ++data;
-    if (data != eptr && strchr(ws, *data))
+    if (data != eptr && *data != '\0' && strchr(ws, *data))
     {
         *data++ = '\0';
         goto newarg_search;
